@@ -93,7 +93,7 @@ theorem tokens_ordered_disjoint {cfg : Cfg} (hs : cfg.up.Sane) {mode : Mode} {k 
   | some o =>
     simp [hr] at h; subst h
     have R := lexRaw_spec hs hr
-    have P := ((softKwGo_chain (lo := 0) (hi := src.length) o.toks (mode != .expression)).mpr R.2.1).pairwise
+    have P := ((softKwGo_chain (lo := 0) (hi := src.length) o.toks (SoftSt.init mode)).mpr R.2.1).pairwise
     refine List.Pairwise.imp_of_mem ?_ P
     intro a b ha hb' hab
     refine ⟨hab, ?_⟩
